@@ -147,5 +147,19 @@ func VerifHarness_C19_CosineGrid() {
 	if (a[0] == 0 && a[1] == 0) || (b[0] == 0 && b[1] == 0) {
 		verifAssert(c == 0, "C19: similarity with a zero vector is 0")
 	}
+	// it is the cosine: for finite components, the quotient computed in double precision
+	finite := true
+	var dot, na, nb float64
+	for k := range a {
+		x, y := float64(a[k]), float64(b[k])
+		if math.IsNaN(x) || math.IsInf(x, 0) || math.IsNaN(y) || math.IsInf(y, 0) {
+			finite = false
+		}
+		dot, na, nb = dot+x*y, na+x*x, nb+y*y
+	}
+	if finite && na != 0 && nb != 0 {
+		ref := dot / (math.Sqrt(na) * math.Sqrt(nb))
+		verifAssert(math.Abs(c-ref) <= 1e-9, "C19: cosine similarity of finite vectors is their cosine (computed in double precision)")
+	}
 	verifReach("cosine")
 }
